@@ -10,6 +10,7 @@ CONSTANTS
   Wraps = {0, 1}
   Kinds = {"A", "M", "C"}
   Types = {43, 44, 45, 107, 108}
+  Crashes = TRUE
   Rejects = FALSE
   Persist = TRUE
   EmitDepth = 80
